@@ -99,7 +99,7 @@ namespace
     thread_local Action *tl_action = nullptr;
 
     constexpr auto        kDeadline  = std::chrono::seconds(12);
-    constexpr std::size_t kMaxEvents = 60000;
+    constexpr std::size_t kMaxEvents = 25000;
 
     // wait on H->cv until pred, with the watchdog; returns false when the watchdog fired
     template <typename Pred>
